@@ -9,9 +9,9 @@ pub(crate) fn is_clean(b: &InnerBucket) -> bool {
 }
 
 // ---- C15: the 16-byte bucket header value: root page then counter, little endian, both directions
-// @ob props=C15,C01 tier=quick cap=200 fns=BucketMeta::from<&[u8]>,BucketMeta::as_ref bound="all 16 bytes symbolic, any alignment offset 0..8 of the source slice" unwind=17
+// @ob props=C15,C01 tier=quick cap=200 fns=BucketMeta::from<&[u8]>,BucketMeta::as_ref bound="all 16 bytes symbolic, any alignment offset 0..8 of the source slice" unwind=5
 #[kani::proof]
-#[kani::unwind(17)]
+#[kani::unwind(5)]
 fn bucket_meta_codec() {
     let raw: [u8; 24] = kani::any();
     let off: usize = kani::any();
@@ -92,9 +92,9 @@ fn pending_has_once(p: &Vec<u64>, page: u64) -> bool {
 }
 
 // ---- C05-Ob6: bucket deletion frees every page run of the bucket exactly once (incl. overflow runs)
-// @ob props=C05,C10,C01 tier=quick cap=900 fns=InnerBucket::delete_bucket,InnerBucket::get_bucket,InnerBucket::bucket_getter,TxFreelist::free,search,InnerBucket::node,Node::delete bound="concrete tree, no symbolic input (one execution): root leaf with one bucket entry whose root is a leaf run of 3 pages (overflow 2); tx id 7" unwind=17
+// @ob props=C05,C10,C01 tier=quick cap=900 fns=InnerBucket::delete_bucket,InnerBucket::get_bucket,InnerBucket::bucket_getter,TxFreelist::free,search,InnerBucket::node,Node::delete bound="concrete tree, no symbolic input (one execution): root leaf with one bucket entry whose root is a leaf run of 3 pages (overflow 2); tx id 7" unwind=5
 #[kani::proof]
-#[kani::unwind(17)]
+#[kani::unwind(5)]
 fn bucket_delete_frees_overflow_run() {
     let name: [u8; 1] = [b'b']; // concrete inputs: the walk is the subject (symbolic names fork every map lookup)
     let bv = bucket_value(4, 1);
@@ -128,9 +128,9 @@ fn bucket_delete_frees_overflow_run() {
 }
 
 // ---- C05-Ob6: a bucket with a branch root, two leaves (one with an overflow page) and a nested bucket
-// @ob props=C05,C10 tier=quick cap=1200 fns=InnerBucket::delete_bucket,TxFreelist::free,Page::branch_elements,Page::leaf_elements,BucketMeta::from bound="concrete tree, no symbolic input (one execution): deleted bucket = branch root 4 over leaf 5 (overflow 1) and leaf 7, leaf 7 holds a nested bucket rooted at leaf 8" unwind=17
+// @ob props=C05,C10 tier=quick cap=1200 fns=InnerBucket::delete_bucket,TxFreelist::free,Page::branch_elements,Page::leaf_elements,BucketMeta::from bound="concrete tree, no symbolic input (one execution): deleted bucket = branch root 4 over leaf 5 (overflow 1) and leaf 7, leaf 7 holds a nested bucket rooted at leaf 8" unwind=5
 #[kani::proof]
-#[kani::unwind(17)]
+#[kani::unwind(5)]
 fn bucket_delete_walks_tree() {
     let name: [u8; 1] = [b'b'];
     let bv = bucket_value(4, 3);
@@ -410,25 +410,25 @@ fn failing_call(op: u8, target: u8) {
 macro_rules! failing_harness {
     ($name:ident, $op:expr, $target:expr) => {
         #[kani::proof]
-        #[kani::unwind(17)]
+        #[kani::unwind(5)]
         fn $name() {
             failing_call($op, $target);
         }
     };
 }
-// @ob props=C01,C06 tier=quick cap=900 fns=InnerBucket::get_bucket,InnerBucket::bucket_getter bound="leaf with one kv and one bucket entry (symbolic 1-byte names); get_bucket of the kv name" unwind=17
+// @ob props=C01,C06 tier=quick cap=900 fns=InnerBucket::get_bucket,InnerBucket::bucket_getter bound="leaf with one kv and one bucket entry (symbolic 1-byte names); get_bucket of the kv name" unwind=5
 failing_harness!(bucket_get_bucket_on_kv, 0, 0);
-// @ob props=C01,C06 tier=quick cap=900 fns=InnerBucket::get_bucket,InnerBucket::bucket_getter,InnerBucket::from_meta bound="same leaf; get_bucket of the bucket name (succeeds, changes nothing)" unwind=17
+// @ob props=C01,C06 tier=quick cap=900 fns=InnerBucket::get_bucket,InnerBucket::bucket_getter,InnerBucket::from_meta bound="same leaf; get_bucket of the bucket name (succeeds, changes nothing)" unwind=5
 failing_harness!(bucket_get_bucket_found, 0, 1);
-// @ob props=C01,C06 tier=quick cap=900 fns=InnerBucket::get_bucket,InnerBucket::bucket_getter bound="same leaf; get_bucket of a missing symbolic name" unwind=17
+// @ob props=C01,C06 tier=quick cap=900 fns=InnerBucket::get_bucket,InnerBucket::bucket_getter bound="same leaf; get_bucket of a missing symbolic name" unwind=5
 failing_harness!(bucket_get_bucket_missing, 0, 2);
-// @ob props=C01,C06 tier=quick cap=900 fns=InnerBucket::put,InnerBucket::put_leaf bound="same leaf; put over the bucket name" unwind=17
+// @ob props=C01,C06 tier=quick cap=900 fns=InnerBucket::put,InnerBucket::put_leaf bound="same leaf; put over the bucket name" unwind=5
 failing_harness!(bucket_put_over_bucket_refused, 1, 1);
-// @ob props=C01,C06 tier=quick cap=900 fns=InnerBucket::delete bound="same leaf; delete (as key/value) of the bucket name" unwind=17
+// @ob props=C01,C06 tier=quick cap=900 fns=InnerBucket::delete bound="same leaf; delete (as key/value) of the bucket name" unwind=5
 failing_harness!(bucket_delete_bucket_as_kv_refused, 2, 1);
-// @ob props=C01,C06 tier=quick cap=900 fns=InnerBucket::create_bucket,InnerBucket::bucket_getter bound="same leaf; create_bucket over the kv name" unwind=17
+// @ob props=C01,C06 tier=quick cap=900 fns=InnerBucket::create_bucket,InnerBucket::bucket_getter bound="same leaf; create_bucket over the kv name" unwind=5
 failing_harness!(bucket_create_over_kv_refused, 3, 0);
-// @ob props=C01,C06 tier=quick cap=900 fns=InnerBucket::create_bucket,InnerBucket::bucket_getter bound="same leaf; create_bucket over the existing bucket name" unwind=17
+// @ob props=C01,C06 tier=quick cap=900 fns=InnerBucket::create_bucket,InnerBucket::bucket_getter bound="same leaf; create_bucket over the existing bucket name" unwind=5
 failing_harness!(bucket_create_existing_refused, 3, 1);
 
 // ---- C01-Ob4 / C07: creating a bucket bumps the counter once and the transaction sees it
@@ -465,3 +465,53 @@ fn bucket_create_step() {
 }
 
 
+
+use crate::cursor::jv::tree_two_leaves;
+
+fn rd64p(base: *const u8, off: usize) -> u64 {
+    let mut b = [0u8; 8];
+    let mut i = 0;
+    while i < 8 {
+        b[i] = unsafe { *base.add(off + i) };
+        i += 1;
+    }
+    u64::from_le_bytes(b)
+}
+
+// ---- C01-Ob5 / C05: commit-time rebalance + spill of a two-leaf bucket after the transaction emptied exactly the
+//      FIRST leaf: no panic, the surviving entries end up in well-formed dirty pages, the freed runs are pending
+// @ob props=C01,C05 tier=quick cap=1800 mem=12 fns=InnerBucket::rebalance,InnerBucket::merge_nodes,InnerBucket::spill,Node::spill,Node::split,Node::write,Page::write_node,InnerBucket::delete bound="concrete tree, no symbolic input (one execution): branch root 3 over leaves 4 {k1,k2} and 5 {k3,k4}; delete k1 and k2; rebalance + spill" unwind=9
+#[kani::proof]
+#[kani::unwind(9)]
+fn bucket_commit_after_emptying_first_leaf() {
+    let a = [[1u8, 0], [2, 0]];
+    let c = [[3u8, 0], [4, 0]];
+    tree_two_leaves(&a, &c);
+    let b = mk_bucket(3, true);
+    let r = b.delete(a[0]);
+    assert!(r.is_ok());
+    std::mem::forget(r);
+    let r = b.delete(a[1]);
+    assert!(r.is_ok());
+    std::mem::forget(r);
+    let mut fl = b.freelist.borrow_mut();
+    let mut ib = b.inner.borrow_mut();
+    let rr = ib.rebalance(&mut fl);
+    assert!(rr.is_ok());
+    std::mem::forget(rr);
+    let sp = ib.spill(&mut fl);
+    assert!(sp.is_ok(), "JV-C01-EMPTY-LEAF-COMMIT: committing after emptying one of two leaves succeeds");
+    if let Ok(meta) = &sp {
+        // the untouched second leaf (page 5) is promoted to be the root as it is on disk; the old root (3) and the
+        // emptied leaf (4) are given back, once each; nothing had to be written
+        assert!(meta.root_page == 5, "the surviving leaf page becomes the bucket's root");
+        assert!(meta.next_int == 0);
+        assert!(fl.pages.len() == 0);
+        let p = crate::freelist::jv::pending_of(&fl.inner, 7);
+        assert!(p.is_some());
+        if let Some(p) = p {
+            assert!(p.len() == 2 && pending_has_once(p, 3) && pending_has_once(p, 4), "old root and emptied leaf are freed exactly once");
+        }
+    }
+    std::mem::forget(sp);
+}
